@@ -151,7 +151,7 @@ def materialise_assembly(case):
     nm = rng.randint(1, max(1, min(opts["max_chain"], cap)))
     for attempt in range(50):
         # some overhang choices cannot be embedded without creating a further site; draw again
-        ov = gen.gen_overhangs(rng, k, nm + 1, forbid=(site, rc(site)))
+        ov = gen.gen_overhangs(rng, k, nm + 1, forbid=(site, rc(site)), palindromes=opts.get("palindromes", 0.5))
         try:
             v = gen.build_vector(rng, geom, o_start=ov[nm], o_end=ov[0], plen=rng.randint(0, opts["pmax"]), blen=rng.randint(2, opts["bmax"]))
             mods = [gen.build_module(rng, geom, ov[i], ov[i + 1], rng.randint(2, opts["tmax"]), rng.randint(0, opts["bmax"])) for i in range(nm)]
